@@ -310,20 +310,20 @@ def oracle_rules(ops, impl):
                 if allowed != any(has_nodes(c, n0, n1) for c in C['edg']) and not degenerate(d):
                     bad.append((i, 'CAD edge node: allowed=%s but edg on the edge: %s' % (allowed, not allowed)))
                 continue
+            eids = {c[1] for c in C['edg'] if n1 in c[0]}
+            if len(eids) >= 2 and allowed:
+                bad.append((i, 'node %d separates boundary edge ids %s and may collapse' % (n1, sorted(eids))))
             if k >= 3 and allowed:
                 bad.append((i, 'corner removed: node %d carries %d patch ids %s and may collapse' % (n1, k, sorted(ids))))
             if k == 2 and allowed and not degenerate(d):
                 if len(shared) != 2 or {c[1] for c in shared} != ids:
                     bad.append((i, 'ridge node %d (ids %s) may collapse along an edge that is not the ridge: '
                                 'triangles on the edge carry %s' % (n1, sorted(ids), [c[1] for c in shared])))
-            if k == 2 and not allowed and not degenerate(d):
-                if len(shared) == 2 and {c[1] for c in shared} == ids:
-                    bad.append((i, 'collapse along the ridge refused'))
-            if k == 1 and not degenerate(d) and allowed != (len(shared) > 0):
-                bad.append((i, 'patch-interior node %d: allowed=%s but %d boundary triangles contain the edge' %
-                            (n1, allowed, len(shared))))
-            if k == 0 and not allowed:
-                bad.append((i, 'interior node refused by the geometry guard'))
+            # a refusal never violates C02 (the property does not require any collapse to happen): a guard that
+            # became stricter shows up as a model difference only (no-failing-input-found)
+            if k == 1 and not degenerate(d) and allowed and len(shared) == 0:
+                bad.append((i, 'patch-interior node %d may collapse onto node %d although no boundary triangle '
+                            'contains the edge' % (n1, n0)))
         elif op == 'cmixed':
             want = not any(n1 in c[0] for _, c in mixed)
             if st != 'ok' or (val == '1') != want:
@@ -840,6 +840,8 @@ def oracle_smooth(ops, impl):
             bad.append((i, 'surface smoothing moved a vertex of an edg (ridge) cell'))
         if moved and w[1] == 'tri' and len({c[1] for c in C['tri'] if node in c[0]}) > 1:
             bad.append((i, 'surface smoothing moved a vertex between two patch ids'))
+        if moved and w[1] == 'edg' and len({c[1] for c in C['edg'] if node in c[0]}) > 1:
+            bad.append((i, 'boundary-edge smoothing moved a vertex that separates two edg ids'))
     return bad
 
 
@@ -1065,20 +1067,9 @@ def oracle_adapt_2d_ids(ops, impl):
         if not same_points(c0, c1, 1e-9):
             f = list(f) + ['2-D corner positions changed: %s -> %s' % (c0, c1)]
         if f:
-            # explained by the known defect exactly when only the two ids of the straight side (1 and 5) and the
-            # corner between them are affected: total area, the other sides and the true corners are intact
-            only_side = all(('patch 1 ' in x or 'patch 5 ' in x or 'patch id set changed' in x or '2-D corner' in x)
-                            and 'total' not in x for x in f)
-            a0, p0 = oracles.measures2d(mi)
-            a1, p1 = oracles.measures2d(mo)
-            side_len = sum(p1[k]['area'] for k in (1, 5) if k in p1)
-            intact = abs(side_len - 1.0) < 1e-9 and set(p1) - {1, 5} == set(p0) - {1, 5}
-            true_corners = [c for c in c0 if c[0] in (0.0, 1.0)]
-            kept = all(any(math.dist(c, x) < 1e-9 for x in c1) for c in true_corners)
-            if only_side and intact and kept:
-                bad.append((i, 'C02 two edg ids on one straight 2-D side: ' + '; '.join(f[:3]), SITE_2D))
-            else:
-                bad.append((i, 'C02 domain changed: ' + '; '.join(f[:3])))
+            # (the defect that used to explain this - two edg ids on one straight side unprotected - is repaired in
+            # /repo by 285dd96 and 36d5222; a fixed finding suppresses nothing)
+            bad.append((i, 'C02 domain changed: ' + '; '.join(f[:3])))
     return bad
 
 
